@@ -1,2 +1,144 @@
-(* Properties/C02.v -- placeholder while the proofs are being written *)
-From RV Require Import Base.Prelude Name.NameModel Name.NameSpec Wire.WireTypes Zone.ZoneModel Zone.ZoneFlat.
+(* Properties/C02.v -- zone lookup follows the authoritative-server algorithm.
+   Statements only; each is closed by [exact lemma] and followed by Print Assumptions.
+
+   Model: Zone/ZoneModel.v (the record tree of crates/dns-types/src/zones/types.rs).
+   Specification: Zone/ZoneFlat.v ([flat_resolve]: RFC 1034 4.3.2 step 3 with the wildcard rules of
+   RFC 4592 on two flat lists of (relative owner, record); [flat_of_ops]: the set of inserted records).
+   [zres_equiv] is equality up to the order of the type groups of an ANY answer (HashMap order);
+   for every other query type the results are equal.  [no_occlusion] is deviation D1 exactly. *)
+From RV Require Import Base.Prelude Name.NameModel Name.NameSpec Wire.WireTypes
+     Zone.ZoneModel Zone.ZoneFlat Zone.ZoneProofs.
+
+(* Building a zone from any list of insertions (ordinary and wildcard, any order, any types) of
+   well-formed names never panics, a lookup of a well-formed name never panics, and -- for zones
+   satisfying D1 -- the lookup result is the flat specification's, for every query type code. *)
+Theorem C02_resolve_refines_flat : forall apex s ops name qt,
+  wf_name apex -> Forall op_ok ops -> wf_name name ->
+  exists z, zone_build apex s ops = Ok z /\
+    match rel_path (labels apex) name with
+    | Some p =>
+      exists r, zone_resolve z name qt = Some (Ok r) /\
+        (no_occlusion (flat_of_ops apex s ops) ->
+           zres_equiv r (flat_resolve (labels apex) (flat_of_ops apex s ops) name p qt) /\
+           (qt <> QT_Wildcard -> r = flat_resolve (labels apex) (flat_of_ops apex s ops) name p qt))
+    | None => zone_resolve z name qt = None
+    end.
+Proof. exact resolve_refines_flat. Qed.
+Print Assumptions C02_resolve_refines_flat.
+
+(* the flat zone of a list of insertions holds exactly the SOA record and the inserted records
+   under the apex, with the TTL raised to the SOA minimum and nothing else changed *)
+Theorem C02_flat_of_ops_sound : forall apex s ops (w : bool) q r,
+  In (q, r) (if w then f_wild (flat_of_ops apex s ops) else f_norm (flat_of_ops apex s ops)) ->
+  from_ops (labels apex) s ops w q r.
+Proof. exact flat_of_ops_sound. Qed.
+Print Assumptions C02_flat_of_ops_sound.
+
+Theorem C02_flat_of_ops_complete : forall apex s ops o q,
+  In o ops -> rel_path (labels apex) (op_name o) = Some q ->
+  In (q, op_zrec s o) (if op_wild o then f_wild (flat_of_ops apex s ops) else f_norm (flat_of_ops apex s ops)).
+Proof. exact flat_of_ops_complete. Qed.
+Print Assumptions C02_flat_of_ops_complete.
+
+(* the tree represents a flat zone ([R]) after Zone::new and after every insertion; insertions
+   never panic within the 255-octet limit (the from_labels(..).unwrap() sites) *)
+Theorem C02_insert_preserves : forall apexl w r z rp nd,
+  R apexl nd z -> wf_labels (rev rp ++ apexl) ->
+  exists nd', node_insert w rp r nd = Ok nd' /\ R apexl nd' (fz_add w (rev rp) r z).
+Proof. intros apexl w r z rp nd. exact (insert_Rsub apexl w r z rp [] nd). Qed.
+Print Assumptions C02_insert_preserves.
+
+(* lookups in any tree representing a flat zone: no panic (with or without D1), and under D1
+   agreement with the flat lookup -- this form is what the merge theorems of C12 compose with *)
+Theorem C02_resolve_no_panic : forall apexl nd z name qt rp,
+  R apexl nd z -> recs_ok z -> wf_labels (rev rp ++ apexl) ->
+  exists r, node_resolve name qt rp nd true = Ok r.
+Proof. exact resolve_no_panic. Qed.
+Print Assumptions C02_resolve_no_panic.
+
+Theorem C02_resolve_R : forall apexl nd z name qt rp,
+  R apexl nd z -> no_occlusion z -> recs_ok z -> wf_labels (rev rp ++ apexl) ->
+  exists r, node_resolve name qt rp nd true = Ok r /\
+            zres_equiv r (flat_resolve apexl z name (rev rp) qt) /\
+            (qt <> QT_Wildcard -> r = flat_resolve apexl z name (rev rp) qt).
+Proof. exact resolve_R. Qed.
+Print Assumptions C02_resolve_R.
+
+(* ---- the sentences of the property, for a zone built from insertions ([lookup_ctx]: well-formed
+   apex, operations and query name, query name = p ++ apex, D1, the zone was built) ---- *)
+
+(* "... with the query name as owner" (answers and the CNAME; a referral is owned by the cut) *)
+Theorem C02_owner_is_query_name : forall apex s ops name p z qt r,
+  lookup_ctx apex s ops name p z -> zone_resolve z name qt = Some (Ok r) -> owner_is name r.
+Proof. exact owner_is_query_name. Qed.
+Print Assumptions C02_owner_is_query_name.
+
+(* "An existing name (including an empty non-terminal and the apex, whatever NS records the apex
+   carries) with no data of the asked type yields an empty answer, never a name error or a referral"
+   -- for names not at or beneath a delegation point and not redirected by a CNAME *)
+Theorem C02_ent_and_apex_give_empty_answer : forall apex s ops name p z qt r,
+  lookup_ctx apex s ops name p z -> zone_resolve z name qt = Some (Ok r) ->
+  let fz := flat_of_ops apex s ops in
+  exists_node fz p ->
+  (forall c, c <> [] -> is_suffix c p -> recs_at (f_norm fz) c RT_NS = []) ->
+  (rtype_matches RT_CNAME qt = true \/ recs_at (f_norm fz) p RT_CNAME = []) ->
+  (forall rec, In (p, rec) (f_norm fz) -> rtype_matches (zr_type rec) qt = false) ->
+  r = ZAnswer [].
+Proof. exact ent_and_apex_give_empty_answer. Qed.
+Print Assumptions C02_ent_and_apex_give_empty_answer.
+
+Theorem C02_apex_gives_empty_answer : forall apex s ops name z qt r,
+  lookup_ctx apex s ops name [] z -> zone_resolve z name qt = Some (Ok r) ->
+  let fz := flat_of_ops apex s ops in
+  (rtype_matches RT_CNAME qt = true \/ recs_at (f_norm fz) [] RT_CNAME = []) ->
+  (forall rec, In ([], rec) (f_norm fz) -> rtype_matches (zr_type rec) qt = false) ->
+  r = ZAnswer [].
+Proof. exact apex_gives_empty_answer. Qed.
+Print Assumptions C02_apex_gives_empty_answer.
+
+(* "a name error only when the name, everything beneath it and any covering wildcard are absent" *)
+Theorem C02_nameerror_only_if_absent : forall apex s ops name p z qt,
+  lookup_ctx apex s ops name p z -> zone_resolve z name qt = Some (Ok ZNameError) ->
+  let fz := flat_of_ops apex s ops in
+  ~ exists_node fz p /\ forall e, closest_encloser fz p e -> has_wild fz e = false.
+Proof. exact nameerror_only_if_absent. Qed.
+Print Assumptions C02_nameerror_only_if_absent.
+
+(* "Every record returned is one the zone holds, with its configured TTL and data": each RR of
+   an answer, CNAME result or referral is the SOA record or an inserted record (type, data
+   unchanged, TTL = max(SOA minimum, configured TTL), class IN) *)
+Theorem C02_records_are_zone_records : forall apex s ops name p z qt r,
+  lookup_ctx apex s ops name p z -> zone_resolve z name qt = Some (Ok r) ->
+  forall x, In x (result_rrs r) ->
+    exists (w : bool) q rec, from_ops (labels apex) s ops w q rec /\ rr_of_rec x rec.
+Proof. exact records_are_zone_records. Qed.
+Print Assumptions C02_records_are_zone_records.
+
+(* "an NS question at the delegation point itself is answered directly" *)
+Theorem C02_ns_question_at_cut_answered_directly : forall apex s ops name p z r,
+  lookup_ctx apex s ops name p z -> zone_resolve z name RT_NS = Some (Ok r) ->
+  let fz := flat_of_ops apex s ops in
+  recs_at (f_norm fz) p RT_NS <> [] -> recs_at (f_norm fz) p RT_CNAME = [] ->
+  r = ZAnswer (map (fun rec => zr_to_rr rec name) (recs_at (f_norm fz) p RT_NS)).
+Proof. exact ns_question_at_cut_answered_directly. Qed.
+Print Assumptions C02_ns_question_at_cut_answered_directly.
+
+(* "a referral carrying the delegation's NS set when the name is at or beneath a delegation point
+   other than the zone apex" *)
+Theorem C02_referral_at_or_beneath_cut : forall apex s ops name p z qt r c,
+  lookup_ctx apex s ops name p z -> zone_resolve z name qt = Some (Ok r) ->
+  let fz := flat_of_ops apex s ops in
+  cut fz p qt c ->
+  r = ZDelegation (map (fun rec => zr_to_rr rec (mkname (c ++ labels apex))) (recs_at (f_norm fz) c RT_NS)).
+Proof. exact referral_at_or_beneath_cut. Qed.
+Print Assumptions C02_referral_at_or_beneath_cut.
+
+(* the hypotheses are satisfiable: a zone with NS at the apex, an empty non-terminal with a wildcard
+   next to an existing child, a wildcard under two empty non-terminals, a delegation, a CNAME next
+   to other data, a duplicate insertion and a TTL below the SOA minimum *)
+Theorem C02_example_wildcard_synthesis : exists z,
+  lookup_ctx Example.apex (Some Example.so) Example.ops (nm [[120]; [121]; [101]; [101]; [122]]) [[120]; [121]; [101]; [101]] z /\
+  zone_resolve z (nm [[120]; [121]; [101]; [101]; [122]]) RT_A
+  = Some (Ok (ZAnswer [Example.rr_at (nm [[120]; [121]; [101]; [101]; [122]]) RT_A 3600 (RD_A 3)])).
+Proof. exact Example.wildcard_synthesis. Qed.
+Print Assumptions C02_example_wildcard_synthesis.
